@@ -150,14 +150,14 @@ Proof.
   intros E. inversion E. lia.
 Qed.
 
-Definition lin_ok (sid : Z) (vw : option (view (data W) (src W))) (sf : option (src W) * option (GV W))
+Definition lin_ok (sid : Z) (vw : option (view (data W) (src W))) (sf : option (src W) * (option (GV W) * option (GV W)))
   (ev : option Tv) (c : option Z * Z * option (LC W)) : Prop :=
   kle (fst (fst c)) sid /\
   forall v e x0c cl, vw = Some v -> ev = Some e -> c = (Some sid, x0c, cl) ->
     exists xf, x0c = glow W xf /\ in_grid W x0c = true /\ in_grid W (gup W xf) = true /\
       cl = Some (Lmk W x0c (gup W xf) (Fsig W (v, sf) e x0c) (Fsig W (v, sf) e (gup W xf))).
 
-Definition par_ok (sid : Z) (vw : option (view (data W) (src W))) (sf : option (src W) * option (GV W))
+Definition par_ok (sid : Z) (vw : option (view (data W) (src W))) (sf : option (src W) * (option (GV W) * option (GV W)))
   (ev : option Tv) (c : option Z * Z * option (PC W)) : Prop :=
   kle (fst (fst c)) sid /\
   forall v e x1c cp, vw = Some v -> ev = Some e -> c = (Some sid, x1c, cp) ->
@@ -170,12 +170,12 @@ Definition par_ok (sid : Z) (vw : option (view (data W) (src W))) (sf : option (
 Definition pdfc_ok (sid : Z) (c : pdfc W) (v0 : V W) : Prop :=
   p_sid c = Some sid -> forall w, p_pd c = Some w -> w = v0.
 
-Definition sig_ok (sid : Z) (vw : option (view (data W) (src W))) (sf : option (src W) * option (GV W))
+Definition sig_ok (sid : Z) (vw : option (view (data W) (src W))) (sf : option (src W) * (option (GV W) * option (GV W)))
   (ev : option Tv) (f : Z -> pdfc W) : Prop :=
   forall g, kle (p_sid (f g)) sid /\
     forall v e, vw = Some v -> ev = Some e -> pdfc_ok sid (f g) (Fsig W (v, sf) e g).
 
-Definition bkg_ok (sid : Z) (vw : option (view (data W) (src W))) (sf : option (src W) * option (GV W))
+Definition bkg_ok (sid : Z) (vw : option (view (data W) (src W))) (sf : option (src W) * (option (GV W) * option (GV W)))
   (c : pdfc W) : Prop :=
   kle (p_sid c) sid /\ forall v, vw = Some v -> pdfc_ok sid c (Fbkg W (v, sf)).
 
@@ -210,7 +210,7 @@ Qed.
 
 Lemma CInv_init_raw s0 :
   CInv (mkst W tdm_sid_initial None None s0 None (None, 0, None) (None, 0, None)
-             (fun _ => mkpdfc W None None) (mkpdfc W None None) None gfp_initial_value None).
+             (fun _ => mkpdfc W None None) (mkpdfc W None None) None (gfp_initial_value, gfp_initial_value) (None, None)).
 Proof.
   unfold CInv, lin_ok, par_ok, sig_ok, bkg_ok, pdfc_ok, s_ext; cbn.
   repeat split; try exact I; intros; try discriminate; congruence.
@@ -435,38 +435,35 @@ Lemma CInv_set_bkg_nsg st c n :
 Proof. intros (Hl & Hp & Hs & Hb) H. unfold CInv; cbn. auto. Qed.
 
 (* ---- the DataField memo of the global-fit-parameter dependent field *)
-Definition has_gfp : bool := has_gfp_field C.
-
 (* no such field: no values *)
-Definition NoG (st : State) : Prop := c_ngfp C <= 0 -> s_gv st = None.
+Definition NoG (st : State) : Prop :=
+  (c_ngfp C <= 0 -> fst (s_gv st) = None) /\ (c_ngfp C <= 1 -> snd (s_gv st) = None).
 
 (* a plain field's column in the events array, whenever it carries remembered
    parameter values, holds what the calculation function gives for them now *)
 Definition Memo (st : State) : Prop :=
   c_gfp_srcevt C = false ->
-  forall k g v, s_gkey st = Some k -> s_gv st = Some g -> s_view st = Some v ->
-    g = Fg W v (s_srcf st) (s_cur st) k.
+  forall v, s_view st = Some v ->
+    (forall k g, fst (s_gkey st) = Some k -> fst (s_gv st) = Some g -> g = Fg W v (s_srcf st) (s_cur st) k) /\
+    (forall k g, snd (s_gkey st) = Some k -> snd (s_gv st) = Some g -> g = Fg2 W v (s_srcf st) (s_cur st) k).
 
 (* configurations in which the memo is never consulted *)
 Definition memo_free : bool := c_gfp_srcevt C || (c_ngfp C <=? 0).
 
 Lemma Memo_free st : memo_free = true -> NoG st -> Memo st.
 Proof.
-  unfold memo_free, Memo, NoG. intros H HN Hs k g v _ Eg _.
-  rewrite Hs in H. cbn in H. apply Z.leb_le in H. rewrite (HN H) in Eg. discriminate.
+  unfold memo_free, Memo, NoG. intros H (H0 & H1) Hs v _.
+  rewrite Hs in H. cbn in H. apply Z.leb_le in H.
+  split; intros k g _ Eg; [rewrite (H0 H) in Eg | rewrite H1 in Eg by lia]; discriminate.
 Qed.
 
-Lemma CInv_bump_g st sid' k v :
-  CInv st -> s_sid st < sid' -> CInv (set_sid W (set_g W st k v) sid').
+Lemma CInv_bump' st st' sid' :
+  CInv st -> s_sid st < sid' ->
+  s_lin st' = s_lin st -> s_par st' = s_par st -> s_sig st' = s_sig st -> s_bkg st' = s_bkg st ->
+  CInv (set_sid W st' sid').
 Proof.
-  intros H Hlt.
-  exact (CInv_bump st sid' (s_view st) (s_srcf st) (s_cur st) (s_evd st) (s_nsg st) k v H Hlt).
-Qed.
-
-Lemma CInv_bump_s st sid' : CInv st -> s_sid st < sid' -> CInv (set_sid W st sid').
-Proof.
-  intros H Hlt.
-  exact (CInv_bump st sid' (s_view st) (s_srcf st) (s_cur st) (s_evd st) (s_nsg st) (s_gkey st) (s_gv st) H Hlt).
+  intros H Hlt E1 E2 E3 E4. unfold set_sid. rewrite E1, E2, E3, E4.
+  exact (CInv_bump st sid' _ _ _ _ _ _ _ H Hlt).
 Qed.
 
 (* what gfp_step leaves untouched *)
@@ -474,56 +471,132 @@ Definition frame_g (st st' : State) : Prop :=
   s_view st' = s_view st /\ s_srcf st' = s_srcf st /\ s_cur st' = s_cur st /\
   s_evd st' = s_evd st /\ s_nsg st' = s_nsg st.
 
-Lemma name_missing_no : gfp_name_missing 1 [0] = true.
-Proof. rewrite K_gfp_name_missing. reflexivity. Qed.
-Lemma name_missing_yes : gfp_name_missing 1 [0; 1] = false.
-Proof. rewrite K_gfp_name_missing. reflexivity. Qed.
+Definition frame_c (st st' : State) : Prop :=
+  s_sid st' = s_sid st /\ s_lin st' = s_lin st /\ s_par st' = s_par st /\ s_sig st' = s_sig st /\
+  s_bkg st' = s_bkg st.
 
-Lemma gfp_step_spec st v x st0 tg :
-  CInv st -> NoG st -> s_view st = Some v -> gfp_step W C st v x = (st0, tg) ->
-  CInv st0 /\ NoG st0 /\ frame_g st st0 /\
-  (Memo st -> Memo st0 /\ s_ext st0 = snd (full_tv W C v (s_srcf st) (s_cur st) x)).
+Lemma miss1 st : gfp_name_missing 1 (cols W C st) =
+  match c_gfp_srcevt C, fst (s_gv st) with false, Some _ => false | _, _ => true end.
 Proof.
-  intros HI HN Ev. unfold gfp_step, full_tv, has_gfp_field.
-  rewrite K_llh_calc_gfp, K_tdm_has_gfp, K_tdm_gfp_skip, K_gfp_is_srcevt, K_gfp_skip_calc,
-    K_gfp_store_value, K_tdm_gfp_bump.
+  unfold cols. rewrite K_gfp_is_srcevt, K_gfp_name_missing.
+  destruct (c_gfp_srcevt C); [reflexivity|]. destruct (fst (s_gv st)); destruct (snd (s_gv st)); reflexivity.
+Qed.
+Lemma miss2 st : gfp_name_missing 2 (cols W C st) =
+  match c_gfp_srcevt C, snd (s_gv st) with false, Some _ => false | _, _ => true end.
+Proof.
+  unfold cols. rewrite K_gfp_is_srcevt, K_gfp_name_missing.
+  destruct (c_gfp_srcevt C); [reflexivity|]. destruct (fst (s_gv st)); destruct (snd (s_gv st)); reflexivity.
+Qed.
+
+Lemma field1_spec st v x st1 c1 :
+  gfp_field1 W C st v x = (st1, c1) ->
+  frame_g st st1 /\ frame_c st st1 /\ snd (s_gkey st1) = snd (s_gkey st) /\ snd (s_gv st1) = snd (s_gv st) /\
+  (Memo st -> s_view st = Some v ->
+     fst (s_gkey st1) = Some x /\ fst (s_gv st1) = Some (Fg W v (s_srcf st) (s_cur st) x)).
+Proof.
+  unfold gfp_field1. rewrite miss1, K_gfp_skip_calc, K_gfp_store_value.
+  set (calc := match c_gfp_srcevt C, fst (s_gv st) with false, Some _ => false | _, _ => true end).
+  destruct (if calc then true else gfp_value_differs x (fst (s_gkey st))) eqn:Ec; cbn [negb];
+    intros E; inversion E; subst; clear E.
+  - unfold frame_g, frame_c; cbn. repeat split.
+  - unfold frame_g, frame_c. repeat split.
+    + unfold calc in Ec. destruct (c_gfp_srcevt C) eqn:Es; [discriminate|].
+      destruct (fst (s_gv st1)) as [g|] eqn:Eg; [|discriminate].
+      apply K_gfp_value_differs in Ec. exact Ec.
+    + unfold calc in Ec. destruct (c_gfp_srcevt C) eqn:Es; [discriminate|].
+      destruct (fst (s_gv st1)) as [g|] eqn:Eg; [|discriminate].
+      apply K_gfp_value_differs in Ec.
+      rewrite (proj1 (H Es v H0) x g Ec Eg). reflexivity.
+Qed.
+
+Lemma field2_spec st v n st2 c2 :
+  gfp_field2 W C st v n = (st2, c2) ->
+  frame_g st st2 /\ frame_c st st2 /\ fst (s_gkey st2) = fst (s_gkey st) /\ fst (s_gv st2) = fst (s_gv st) /\
+  (Memo st -> s_view st = Some v ->
+     snd (s_gkey st2) = Some n /\ snd (s_gv st2) = Some (Fg2 W v (s_srcf st) (s_cur st) n)).
+Proof.
+  unfold gfp_field2. rewrite miss2, K_gfp_skip_calc, K_gfp_store_value.
+  set (calc := match c_gfp_srcevt C, snd (s_gv st) with false, Some _ => false | _, _ => true end).
+  destruct (if calc then true else gfp_value_differs n (snd (s_gkey st))) eqn:Ec; cbn [negb];
+    intros E; inversion E; subst; clear E.
+  - unfold frame_g, frame_c; cbn. repeat split.
+  - unfold frame_g, frame_c. repeat split.
+    + unfold calc in Ec. destruct (c_gfp_srcevt C) eqn:Es; [discriminate|].
+      destruct (snd (s_gv st2)) as [g|] eqn:Eg; [|discriminate].
+      apply K_gfp_value_differs in Ec. exact Ec.
+    + unfold calc in Ec. destruct (c_gfp_srcevt C) eqn:Es; [discriminate|].
+      destruct (snd (s_gv st2)) as [g|] eqn:Eg; [|discriminate].
+      apply K_gfp_value_differs in Ec.
+      rewrite (proj2 (H Es v H0) n g Ec Eg). reflexivity.
+Qed.
+
+(* a memo that holds the values of the current parameter point *)
+Lemma Memo_of st v :
+  s_view st = Some v ->
+  (forall k g, fst (s_gkey st) = Some k -> fst (s_gv st) = Some g -> g = Fg W v (s_srcf st) (s_cur st) k) ->
+  (forall k g, snd (s_gkey st) = Some k -> snd (s_gv st) = Some g -> g = Fg2 W v (s_srcf st) (s_cur st) k) ->
+  Memo st.
+Proof. intros Ev H1 H2 _ v' Ev'. assert (v' = v) by congruence. subst. split; assumption. Qed.
+
+Lemma gfp_step_spec st v ns x st0 tg :
+  CInv st -> NoG st -> s_view st = Some v -> gfp_step W C st v ns x = (st0, tg) ->
+  CInv st0 /\ NoG st0 /\ frame_g st st0 /\
+  (Memo st -> Memo st0 /\ s_ext st0 = snd (full_tv W C v (s_srcf st) (s_cur st) ns x)).
+Proof.
+  intros HI (HN0 & HN1) Ev. unfold gfp_step, full_tv, has_gfp_field, has_gfp_field2.
+  rewrite K_llh_calc_gfp, K_tdm_has_gfp, K_tdm_gfp_skip.
   destruct (c_ngfp C >? 0) eqn:Epos.
   - assert (Hpos : c_ngfp C > 0) by (apply Z.gtb_lt in Epos; lia).
     assert (E0 : (c_ngfp C =? 0) = false) by (apply Z.eqb_neq; lia).
     rewrite E0. cbn [snd].
-    set (calc := if gfp_name_missing 1 (if c_gfp_srcevt C then [0] else match s_gv st with Some _ => [0; 1] | None => [0] end)
-                 then true else gfp_value_differs x (s_gkey st)).
-    destruct calc eqn:Ec; cbn [negb].
-    + (* (re)calculated *)
-      intros E; inversion E; subst; clear E.
-      split; [apply CInv_bump_g; [exact HI | cbn; lia]|].
-      split; [unfold NoG; intros; lia|].
-      split; [unfold frame_g; cbn; repeat split|].
-      intros _. split.
-      * unfold Memo; cbn. intros _ k g v' Ek Eg Ev'. inversion Ek; inversion Eg; subst.
-        assert (v' = v) by congruence. subst. reflexivity.
-      * unfold s_ext; cbn. reflexivity.
-    + (* the remembered values are re-used *)
-      intros E; inversion E; subst; clear E.
-      split; [apply CInv_bump_s; [exact HI | lia]|].
-      split; [unfold NoG in *; cbn; exact HN|].
-      split; [unfold frame_g; cbn; repeat split|].
-      intros HM. split; [unfold Memo in *; cbn; exact HM|].
-      unfold s_ext; cbn.
-      unfold calc in Ec. destruct (c_gfp_srcevt C) eqn:Es.
-      * rewrite name_missing_no in Ec. discriminate.
-      * destruct (s_gv st) as [g|] eqn:Eg.
-        -- rewrite name_missing_yes in Ec. apply K_gfp_value_differs in Ec.
-           rewrite (HM Es x g v Ec Eg Ev). reflexivity.
-        -- rewrite name_missing_no in Ec. discriminate.
+    destruct (gfp_field1 W C st v x) as [st1 c1] eqn:E1.
+    destruct (field1_spec _ _ _ _ _ E1) as ((Gv & Gsf & Gc & Ge & Gn) & (Cs & Cl & Cp & Cg & Cb) & K1 & V1 & H1).
+    destruct (2 <=? c_ngfp C) eqn:E2.
+    + destruct (gfp_field2 W C st1 v ns) as [st2 c2] eqn:E3.
+      assert (Ev1 : s_view st1 = Some v) by congruence.
+      destruct (field2_spec _ _ _ _ _ E3) as ((Hv & Hsf & Hc & He & Hn) & (Ds & Dl & Dp & Dg & Db) & K2 & V2 & H2).
+      intros E; inversion E; subst; clear E. rewrite K_tdm_gfp_bump.
+      split; [apply (CInv_bump' st st2); [exact HI | lia | congruence..]|].
+      split; [unfold NoG; cbn; split; intros; apply Z.leb_le in E2; lia|].
+      split; [unfold frame_g; cbn; repeat split; congruence|].
+      intros HM. destruct (H1 HM Ev) as (A1 & B1).
+      assert (M1 : Memo st1).
+      { intros Es v' Ev'. assert (v' = v) by congruence. subst v'. split.
+        - intros k g Ek Eg. rewrite A1 in Ek. rewrite B1 in Eg. inversion Ek; inversion Eg; subst.
+          rewrite Gsf, Gc. reflexivity.
+        - intros k g Ek Eg. rewrite K1 in Ek. rewrite V1 in Eg. rewrite Gsf, Gc.
+          apply (proj2 (HM Es v Ev) k g Ek Eg). }
+      destruct (H2 M1 Ev1) as (A2 & B2).
+      split.
+      * apply (Memo_of _ v); cbn; [congruence | |].
+        -- intros k g Ek Eg. rewrite K2, A1 in Ek. rewrite V2, B1 in Eg. inversion Ek; inversion Eg; subst.
+           rewrite Hsf, Hc, Gsf, Gc. reflexivity.
+        -- intros k g Ek Eg. rewrite A2 in Ek. rewrite B2 in Eg. inversion Ek; inversion Eg; subst.
+           rewrite Hsf, Hc. reflexivity.
+      * unfold s_ext; cbn. rewrite Hsf, Gsf. f_equal.
+        rewrite (surjective_pairing (s_gv st2)), V2, B1, B2, Gsf, Gc. reflexivity.
+    + intros E; inversion E; subst; clear E. rewrite K_tdm_gfp_bump.
+      assert (Hle : c_ngfp C <= 1) by (apply Z.leb_gt in E2; lia).
+      split; [apply (CInv_bump' st st1); [exact HI | lia | congruence..]|].
+      split; [unfold NoG; cbn; split; intros; [lia | rewrite V1; apply HN1; assumption]|].
+      split; [unfold frame_g; cbn; repeat split; congruence|].
+      intros HM. destruct (H1 HM Ev) as (A1 & B1).
+      split.
+      * apply (Memo_of _ v); cbn; [congruence | |].
+        -- intros k g Ek Eg. rewrite A1 in Ek. rewrite B1 in Eg. inversion Ek; inversion Eg; subst.
+           rewrite Gsf, Gc. reflexivity.
+        -- intros k g _ Eg. rewrite V1, (HN1 Hle) in Eg. discriminate.
+      * unfold s_ext; cbn. rewrite Gsf. f_equal.
+        rewrite (surjective_pairing (s_gv st1)), V1, B1, (HN1 Hle). reflexivity.
   - assert (Hle : c_ngfp C <= 0) by (destruct (Z.gtb_spec (c_ngfp C) 0); [discriminate | lia]).
     intros E; inversion E; subst; clear E.
-    split; [exact HI|]. split; [exact HN|]. split; [unfold frame_g; repeat split|].
+    split; [exact HI|]. split; [split; assumption|]. split; [unfold frame_g; repeat split|].
     intros HM. split; [exact HM|].
-    unfold s_ext. rewrite (HN Hle). reflexivity.
+    assert (E2 : (2 <=? c_ngfp C) = false) by (apply Z.leb_gt; lia).
+    unfold s_ext. rewrite E2, (surjective_pairing (s_gv st0)), (HN0 Hle), HN1 by lia. reflexivity.
 Qed.
 
-Lemma full_tv_eq v sf cs x : full_tv W C v sf cs x = (v, snd (full_tv W C v sf cs x)).
+Lemma full_tv_eq v sf cs ns x : full_tv W C v sf cs ns x = (v, snd (full_tv W C v sf cs ns x)).
 Proof. reflexivity. Qed.
 
 (* one evaluation: invariants kept; with a valid memo the output is the one of
@@ -542,8 +615,8 @@ Proof.
   2:{ intros E; inversion E; subst. rewrite Ev, Ee.
       split; [exact HI|]. split; [exact HN|]. split; [reflexivity|]. split; [reflexivity|].
       split; [reflexivity|]. intros HM. split; [reflexivity | exact HM]. }
-  destruct (gfp_step W C st v x) as [st0 tg] eqn:Eg.
-  destruct (gfp_step_spec _ _ _ _ _ HI HN Ev Eg) as (I0 & N0 & (Gv & Gsf & Gc & Ge & Gn) & HM0).
+  destruct (gfp_step W C st v ns x) as [st0 tg] eqn:Eg.
+  destruct (gfp_step_spec _ _ _ _ _ _ HI HN Ev Eg) as (I0 & N0 & (Gv & Gsf & Gc & Ge & Gn) & HM0).
   assert (Ev0 : s_view st0 = Some v) by congruence.
   assert (Ee0 : s_evd st0 = Some e) by congruence.
   destruct (interp W C st0 (v, s_ext st0) e x) as [[st1 t1] r1] eqn:Ei.
@@ -560,18 +633,18 @@ Proof.
     split.
     { apply CInv_set_bkg_nsg; [unfold CInv; auto|].
       split; [exact K1|]. intros v' Ev'. assert (v' = v) by congruence. subst v'. rewrite Ff. exact O1. }
-    split; [unfold NoG in *; cbn; intros H; rewrite Fgv; apply N0, H|].
+    split; [unfold NoG in *; cbn; rewrite Fgv; exact N0|].
     cbn. split; [congruence|]. split; [congruence|]. split; [congruence|].
     intros HM. destruct (HM0 HM) as [M0 Ex]. split.
-    + rewrite (full_tv_eq v (s_srcf st) (s_cur st) x), <- Ex.
+    + rewrite (full_tv_eq v (s_srcf st) (s_cur st) ns x), <- Ex.
       unfold pure_nsg, pure_eval. rewrite <- R1. cbn.
       rewrite Fv, Fsf, Fc, Fe, Gv, Gsf, Gc, Ge, Ev, Ee. reflexivity.
     + unfold Memo in *; cbn. rewrite Fgk, Fgv, Fv, Fsf, Fc. exact M0.
   - intros E; inversion E; subst; clear E.
-    split; [exact I1|]. split; [unfold NoG in *; intros H; rewrite Fgv; apply N0, H|].
+    split; [exact I1|]. split; [unfold NoG in *; rewrite Fgv; exact N0|].
     split; [congruence|]. split; [congruence|]. split; [congruence|].
     intros HM. destruct (HM0 HM) as [M0 Ex]. split.
-    + rewrite (full_tv_eq v (s_srcf st) (s_cur st) x), <- Ex.
+    + rewrite (full_tv_eq v (s_srcf st) (s_cur st) ns x), <- Ex.
       unfold pure_nsg, pure_eval. rewrite <- R1. cbn.
       rewrite Fv, Fsf, Fc, Fe, Fn, Gv, Gsf, Gc, Ge, Gn, Ev, Ee. reflexivity.
     + unfold Memo in *. rewrite Fgk, Fgv, Fv, Fsf, Fc. exact M0.
@@ -612,9 +685,10 @@ Lemma init_inv s0 : NoG (init W C s0) /\ Memo (init W C s0) /\ MC (init W C s0) 
 Proof.
   unfold init. destruct (calc_source_gv
     (mkst W tdm_sid_initial None None s0 None (None, 0, None) (None, 0, None)
-       (fun _ => mkpdfc W None None) (mkpdfc W None None) None gfp_initial_value None) s0) as (E1 & E2 & E3).
-  split; [unfold NoG; intros _; rewrite E1; reflexivity|].
-  split; [unfold Memo; intros _ k g v _ Eg; rewrite E1 in Eg; discriminate|].
+       (fun _ => mkpdfc W None None) (mkpdfc W None None) None (gfp_initial_value, gfp_initial_value) (None, None)) s0)
+    as (E1 & E2 & E3).
+  split; [unfold NoG; rewrite E1; split; intros _; reflexivity|].
+  split; [unfold Memo; intros _ v _; rewrite E1; split; intros k g _ Eg; discriminate|].
   split; [|rewrite E3; reflexivity].
   unfold MC. rewrite E3. cbn.
   unfold calc_source_fields, has_src_fields. rewrite K_tdm_src_skip.
@@ -636,11 +710,12 @@ Proof.
   intros HI HN. destruct o as [d|ns x|s|ns]; cbn [step].
   - intros E; inversion E; subst; clear E.
     split; [apply CInv_init_trial; exact HI|].
-    split; [unfold NoG, init_trial in *; cbn; intros H; rewrite (HN H); destruct (gfp_is_srcevt (c_gfp_srcevt C)); reflexivity|].
+    split; [unfold NoG, init_trial in *; cbn; destruct HN as (H0 & H1);
+            destruct (gfp_is_srcevt (c_gfp_srcevt C)); cbn; split; auto|].
     split; [unfold MC, init_trial; cbn; auto|].
     split; [reflexivity|].
     split; [intros _; unfold sstep, abs, init_trial, plain_tv; cbn; rewrite K_ns2_reset_on_new_trial; reflexivity|].
-    unfold Memo, init_trial; cbn. rewrite K_gfp_reset_on_new_trial. intros; discriminate.
+    unfold Memo, init_trial; cbn. rewrite K_gfp_reset_on_new_trial. intros _ v _. split; intros; discriminate.
   - destruct (evaluate W C st ns x) as [[st1 r] t1] eqn:Ee.
     intros E; inversion E; subst; clear E.
     destruct (evaluate_spec _ _ _ _ _ _ HI HN Ee) as (I1 & N1 & Ec & Esf & Ev & HM).
@@ -651,7 +726,7 @@ Proof.
     split; [apply CInv_change_source; exact HI|].
     unfold change_source.
     match goal with |- context [calc_source_fields W C ?a s] => destruct (calc_source_gv a s) as (E1 & E2 & E3) end.
-    split; [unfold NoG in *; intros H; rewrite E1; cbn; apply HN, H|].
+    split; [unfold NoG in *; rewrite E1; cbn; exact HN|].
     split.
     { intros M. unfold MC in *. rewrite E3. cbn.
       unfold calc_source_fields, has_src_fields in *. rewrite K_tdm_src_skip.
@@ -808,14 +883,14 @@ Proof.
 Qed.
 
 (* what the PDFs read in a trial with data d initialised for source c *)
-Definition cur_tvx (c : src W) (d : data W) (x : Z) := full_tv W C (mkview d c) (srcf_of c) c x.
+Definition cur_tvx (c : src W) (d : data W) (ns x : Z) := full_tv W C (mkview d c) (srcf_of c) c ns x.
 Definition evd_tv (c : src W) (d : data W) := plain_tv W (mkview d c) (srcf_of c).
 
 Lemma L_eval sp d mid ns x :
   sconsistent sp -> forallb (is_query W) mid = true ->
   srun W C sp (InitTrial W d :: mid ++ [Evaluate W ns x]) =
   ONone W :: srun W C (trial_state (ss_cur sp) d None) mid ++
-    [OEval W (pure_eval W C (cur_tvx (ss_cur sp) d x) (evd_tv (ss_cur sp) d) ns x)].
+    [OEval W (pure_eval W C (cur_tvx (ss_cur sp) d ns x) (evd_tv (ss_cur sp) d) ns x)].
 Proof.
   intros Hc Hq. cbn [srun]. rewrite (sstep_init_trial _ d Hc). f_equal.
   rewrite srun_app. f_equal.
@@ -824,10 +899,10 @@ Qed.
 
 Lemma L_ns2 sp d mid ns x tail n o :
   sconsistent sp -> forallb (is_query W) mid = true -> forallb (is_ns2 W) tail = true ->
-  pure_interp W C (cur_tvx (ss_cur sp) d x) (evd_tv (ss_cur sp) d) x = Ok o ->
+  pure_interp W C (cur_tvx (ss_cur sp) d ns x) (evd_tv (ss_cur sp) d) x = Ok o ->
   srun W C sp (InitTrial W d :: (mid ++ Evaluate W ns x :: tail) ++ [NsGrad2 W n]) =
   ONone W :: srun W C (trial_state (ss_cur sp) d None) (mid ++ Evaluate W ns x :: tail) ++
-    [let cur := cur_tvx (ss_cur sp) d x in
+    [let cur := cur_tvx (ss_cur sp) d ns x in
      ONs2 W (Ok (g2 W (nsg_of W o (Fbkg W cur) cur (ns, x)) (evd_tv (ss_cur sp) d) n))].
 Proof.
   intros Hc Hq Ht Ho. cbn [srun]. rewrite (sstep_init_trial _ d Hc). f_equal.
@@ -835,7 +910,7 @@ Proof.
   destruct (sfinal_queries mid (ss_cur sp) d None Hq) as [n' En].
   rewrite sfinal_app, En.
   cbn [sfinal sstep trial_state ss_view ss_evd ss_srcf ss_cur ss_nsg fst].
-  unfold pure_nsg. fold (cur_tvx (ss_cur sp) d x). fold (evd_tv (ss_cur sp) d). rewrite Ho.
+  unfold pure_nsg. fold (cur_tvx (ss_cur sp) d ns x). fold (evd_tv (ss_cur sp) d). rewrite Ho.
   rewrite (sfinal_ns2 tail _ Ht). reflexivity.
 Qed.
 
@@ -910,13 +985,13 @@ Proof.
   change [InitTrial W d; Evaluate W ns x] with (InitTrial W d :: [] ++ [Evaluate W ns x]) in Hok.
   rewrite (L_eval W C _ d [] ns x (sinit_consistent W C c) eq_refl) in Hok.
   cbn [srun app last ss_cur sinit] in Hok. unfold pure_eval in Hok.
-  destruct (pure_interp W C (cur_tvx W C c d x) (evd_tv W C c d) x) as [o|er] eqn:Ei;
+  destruct (pure_interp W C (cur_tvx W C c d ns x) (evd_tv W C c d) x) as [o|er] eqn:Ei;
     [|cbn in Hok; discriminate].
   assert (Hw : wseq W false ((mid ++ Evaluate W ns x :: tail) ++ [NsGrad2 W n]) = true).
   { rewrite <- app_assoc. rewrite (wseq_queries W mid _ Hq). cbn.
     rewrite (wseq_queries W tail _ (ns2_is_query W tail Ht)). reflexivity. }
   rewrite obs_suffix by exact Hw.
-  assert (Ei' : pure_interp W C (cur_tvx W C (ss_cur (abs W (mfinal W C (init W C s0) pre))) d x)
+  assert (Ei' : pure_interp W C (cur_tvx W C (ss_cur (abs W (mfinal W C (init W C s0) pre))) d ns x)
                   (evd_tv W C (ss_cur (abs W (mfinal W C (init W C s0) pre))) d) x = Ok o)
     by (rewrite Ec; exact Ei).
   rewrite (L_ns2 W C _ d mid ns x tail n o Hc Hq Ht Ei'), last_mid, Ec.
@@ -1180,3 +1255,322 @@ Proof.
 Qed.
 
 End MultiRefine.
+
+(* ------------------------------------------------------------------ part 5
+   maximisation result and test statistic: the minimiser as an oracle *)
+Section MaxRefine.
+Variable W : world.
+Variable C : cfg.
+Hypothesis Hgrid : grid_ok W.
+Variable MaxOut : Type.
+Variable strat : qlog W -> option (Z * Z).
+Variable pick : qlog W -> MaxOut.
+
+(* every query of the minimiser is answered like on objects without caches *)
+Lemma max_loop_spec fuel : forall st h st' h' t,
+  CInv W st -> NoG W C st -> Memo W C st ->
+  max_loop W C strat fuel st h = (st', h', t) ->
+  smax_loop W C strat fuel (abs W st) h = (abs W st', h') /\
+  CInv W st' /\ NoG W C st' /\ Memo W C st' /\ s_cur st' = s_cur st /\ s_srcf st' = s_srcf st.
+Proof.
+  induction fuel as [|f IH]; intros st h st' h' t HI HN HM; cbn [max_loop smax_loop].
+  - intros E; inversion E; subst. auto 10.
+  - destruct (strat h) as [[ns x]|]; [|intros E; inversion E; subst; auto 10].
+    destruct (evaluate W C st ns x) as [[st1 r] t1] eqn:Ee.
+    destruct (evaluate_spec W C Hgrid _ _ _ _ _ _ HI HN Ee) as (I1 & N1 & Ec & Esf & _ & H1).
+    destruct (H1 HM) as (S1 & M1). rewrite S1. cbn [obs_eval].
+    destruct (max_loop W C strat f st1 (h ++ [(ns, x, r)])) as [[st2 h2] t2] eqn:El.
+    intros E; inversion E; subst.
+    destruct (IH _ _ _ _ _ I1 N1 M1 El) as (A & B & D & F & G & K).
+    split; [exact A|]. split; [exact B|]. split; [exact D|]. split; [exact F|]. split; congruence.
+Qed.
+
+(* the queries made by a maximisation are evaluations: a maximisation leaves
+   the objects in a state that some list of evaluate operations leaves *)
+Lemma max_loop_ops fuel : forall st h, exists evs,
+  forallb (is_query W) evs = true /\ fst (fst (max_loop W C strat fuel st h)) = mfinal W C st evs.
+Proof.
+  induction fuel as [|f IH]; intros st h; cbn [max_loop].
+  - exists []. split; reflexivity.
+  - destruct (strat h) as [[ns x]|]; [|exists []; split; reflexivity].
+    destruct (evaluate W C st ns x) as [[st1 r] t1] eqn:Ee.
+    destruct (IH st1 (h ++ [(ns, x, r)])) as (evs & Hq & Hf).
+    destruct (max_loop W C strat f st1 (h ++ [(ns, x, r)])) as [[st2 h2] t2] eqn:El. cbn [fst] in *.
+    exists (Evaluate W ns x :: evs). split; [cbn; exact Hq|].
+    cbn [mfinal step]. rewrite Ee. cbn [fst]. exact Hf.
+Qed.
+
+Lemma mfinal_app a : forall st b, mfinal W C st (a ++ b) = mfinal W C (mfinal W C st a) b.
+Proof. induction a as [|o r IH]; intros st b; [reflexivity | cbn [app mfinal]; apply IH]. Qed.
+
+(* evaluations and second derivatives keep the invariants and the memo *)
+Lemma queries_final mid : forall st,
+  CInv W st -> NoG W C st -> Memo W C st -> forallb (is_query W) mid = true ->
+  CInv W (mfinal W C st mid) /\ NoG W C (mfinal W C st mid) /\ Memo W C (mfinal W C st mid) /\
+  abs W (mfinal W C st mid) = sfinal W C (abs W st) mid.
+Proof.
+  induction mid as [|o r IH]; intros st HI HN HM Hq; [auto|].
+  cbn [forallb] in Hq. apply andb_true_iff in Hq. destruct Hq as [Ho Hr].
+  cbn [mfinal sfinal]. destruct (step W C st o) as [[st' ob] t] eqn:Es. cbn [fst].
+  destruct (step_spec W C Hgrid _ _ _ _ _ HI HN Es) as (I1 & N1 & _ & _ & Hs & Hm).
+  rewrite (Hs HM). cbn [fst].
+  assert (M1 : Memo W C st') by (destruct o; try discriminate; apply Hm, HM).
+  apply (IH st' I1 N1 M1 Hr).
+Qed.
+
+(* the state after  pre ++ [InitTrial d] ++ mid  (mid: evaluations / second derivatives) *)
+Lemma after_trial s0 pre d mid :
+  forallb (is_query W) mid = true ->
+  let st := mfinal W C (init W C s0) (pre ++ InitTrial W d :: mid) in
+  CInv W st /\ NoG W C st /\ Memo W C st /\
+  exists n, abs W st = trial_state W C (src_after W s0 pre) d n.
+Proof.
+  intros Hq. cbv zeta. rewrite mfinal_app. cbn [mfinal step fst].
+  destruct (after_pre W C Hgrid s0 pre) as (A & B & Hc & Ec).
+  set (stp := mfinal W C (init W C s0) pre) in *.
+  destruct (step_spec W C Hgrid stp (InitTrial W d) (init_trial W C stp d) (ONone W) [] A B eq_refl)
+    as (I1 & N1 & _ & _ & _ & M1).
+  destruct (queries_final mid _ I1 N1 M1 Hq) as (I2 & N2 & M2 & E2).
+  split; [exact I2|]. split; [exact N2|]. split; [exact M2|].
+  assert (E1 : abs W (init_trial W C stp d) = trial_state W C (src_after W s0 pre) d None).
+  { assert (Ea : sstep W C (abs W stp) (InitTrial W d) = (abs W (init_trial W C stp d), ONone W))
+      by (unfold sstep, abs, init_trial, plain_tv; cbn; rewrite K_ns2_reset_on_new_trial; reflexivity).
+    rewrite (sstep_init_trial W C _ d Hc), Ec in Ea. apply (f_equal fst) in Ea. cbn [fst] in Ea.
+    symmetry. exact Ea. }
+  rewrite E2, E1. destruct (sfinal_queries W C mid (src_after W s0 pre) d None Hq) as [n' En].
+  exists n'. exact En.
+Qed.
+
+(* on objects without caches the answers do not depend on the remembered ns-gradients *)
+Lemma smax_loop_nsg fuel : forall c d n1 n2 h,
+  snd (smax_loop W C strat fuel (trial_state W C c d n1) h) =
+  snd (smax_loop W C strat fuel (trial_state W C c d n2) h).
+Proof.
+  induction fuel as [|f IH]; intros c d n1 n2 h; cbn [smax_loop]; [reflexivity|].
+  destruct (strat h) as [[ns x]|]; [|reflexivity].
+  cbn [sstep trial_state ss_view ss_evd ss_srcf ss_cur ss_nsg obs_eval].
+  apply IH.
+Qed.
+
+(* T6: after ANY history `pre`, in a trial initialised with data d and after
+   any evaluations / second derivatives of that trial, the maximisation (for
+   every minimiser strategy and every fuel) returns what it returns on freshly
+   built objects for the current source hypothesis; hence so does every test
+   statistic computed from it *)
+Theorem maximize_as_fresh s0 pre d mid fuel :
+  forallb (is_query W) mid = true ->
+  snd (maximize W C MaxOut strat pick fuel (mfinal W C (init W C s0) (pre ++ InitTrial W d :: mid))) =
+  snd (maximize W C MaxOut strat pick fuel (mfinal W C (init W C (src_after W s0 pre)) [InitTrial W d])).
+Proof.
+  intros Hq.
+  assert (Hone : forall s pre' mid', forallb (is_query W) mid' = true ->
+    snd (maximize W C MaxOut strat pick fuel (mfinal W C (init W C s) (pre' ++ InitTrial W d :: mid'))) =
+    pick (snd (smax_loop W C strat fuel (trial_state W C (src_after W s pre') d None) []))).
+  { intros s pre' mid' Hq'. destruct (after_trial s pre' d mid' Hq') as (I & N & M & n & En).
+    unfold maximize.
+    destruct (max_loop W C strat fuel (mfinal W C (init W C s) (pre' ++ InitTrial W d :: mid')) [])
+      as [[st' h'] t] eqn:El. cbn [snd].
+    destruct (max_loop_spec fuel _ _ _ _ _ I N M El) as (S & _).
+    rewrite En in S. f_equal.
+    rewrite <- (smax_loop_nsg fuel _ d n None []). rewrite S. reflexivity. }
+  rewrite (Hone s0 pre mid Hq).
+  change [InitTrial W d] with ([] ++ InitTrial W d :: []).
+  rewrite (Hone (src_after W s0 pre) [] [] eq_refl). reflexivity.
+Qed.
+
+(* ... also when the history itself contains earlier maximisations *)
+Lemma xfinal_expand xs : forall st, exists ops,
+  xfinal W C MaxOut strat pick st xs = mfinal W C st ops /\
+  (forall s, src_after W s ops = xsrc_after W s xs) /\
+  (forallb (xis_query W) xs = true -> forallb (is_query W) ops = true).
+Proof.
+  induction xs as [|xo r IH]; intros st.
+  - exists []. repeat split; auto.
+  - destruct xo as [o|fuel]; cbn [xfinal].
+    + destruct (IH (fst (fst (step W C st o)))) as (ops & E & Hs & Hq).
+      exists (o :: ops). split; [cbn [mfinal]; exact E|]. split.
+      * intros s. destruct o; cbn; apply Hs.
+      * cbn. intros H. apply andb_true_iff in H. destruct H as [H1 H2]. rewrite H1. cbn. apply Hq, H2.
+    + unfold maximize.
+      destruct (max_loop_ops fuel st []) as (evs & Hqe & Hf).
+      destruct (max_loop W C strat fuel st []) as [[st' h'] t] eqn:El. cbn [fst] in *.
+      destruct (IH st') as (ops & E & Hs & Hq).
+      exists (evs ++ ops). split; [rewrite mfinal_app, <- Hf; exact E|]. split.
+      * intros s. cbn [xsrc_after]. rewrite <- Hs.
+        clear - Hqe. revert s. induction evs as [|e t IHt]; intros s; [reflexivity|].
+        cbn [forallb] in Hqe. apply andb_true_iff in Hqe. destruct Hqe as [H1 H2].
+        destruct e; try discriminate; cbn; apply IHt, H2.
+      * cbn. intros H. rewrite forallb_app, Hqe. cbn. apply Hq, H.
+Qed.
+
+Theorem xmaximize_as_fresh s0 xpre d xmid fuel :
+  forallb (xis_query W) xmid = true ->
+  snd (maximize W C MaxOut strat pick fuel
+         (xfinal W C MaxOut strat pick (init W C s0) (xpre ++ XOp W (InitTrial W d) :: xmid))) =
+  snd (maximize W C MaxOut strat pick fuel (mfinal W C (init W C (xsrc_after W s0 xpre)) [InitTrial W d])).
+Proof.
+  intros Hq.
+  assert (Happ : forall a st b, xfinal W C MaxOut strat pick st (a ++ b) =
+                   xfinal W C MaxOut strat pick (xfinal W C MaxOut strat pick st a) b).
+  { induction a as [|o r IH]; intros st b; [reflexivity|]. destruct o; cbn [app xfinal]; apply IH. }
+  rewrite Happ. cbn [xfinal].
+  destruct (xfinal_expand xpre (init W C s0)) as (pre & Ep & Hsp & _). rewrite Ep.
+  destruct (xfinal_expand xmid (fst (fst (step W C (mfinal W C (init W C s0) pre) (InitTrial W d)))))
+    as (mid & Em & _ & Hqm). rewrite Em.
+  replace (mfinal W C (fst (fst (step W C (mfinal W C (init W C s0) pre) (InitTrial W d)))) mid)
+    with (mfinal W C (init W C s0) (pre ++ InitTrial W d :: mid)) by (rewrite mfinal_app; reflexivity).
+  rewrite (maximize_as_fresh s0 pre d mid fuel (Hqm Hq)), Hsp. reflexivity.
+Qed.
+
+End MaxRefine.
+
+Lemma xmaximize_and_ts_as_fresh :
+  forall (W : world) (C : cfg),
+    (forall x y, glow W x = glow W y -> gup W x = gup W y) ->
+    forall (MaxOut TS : Type) (strat : qlog W -> option (Z * Z)) (pick : qlog W -> MaxOut) (ts : MaxOut -> TS)
+           (s0 : src W) (xpre : list (xop W)) (d : data W) (xmid : list (xop W)) (fuel : nat),
+      forallb (xis_query W) xmid = true ->
+      let used := snd (maximize W C MaxOut strat pick fuel
+                         (xfinal W C MaxOut strat pick (init W C s0) (xpre ++ XOp W (InitTrial W d) :: xmid))) in
+      let fresh := snd (maximize W C MaxOut strat pick fuel
+                          (mfinal W C (init W C (xsrc_after W s0 xpre)) [InitTrial W d])) in
+      used = fresh /\ ts used = ts fresh.
+Proof.
+  intros W C Hg MaxOut TS strat pick ts s0 xpre d xmid fuel Hq. cbv zeta.
+  rewrite (xmaximize_as_fresh W C Hg MaxOut strat pick s0 xpre d xmid fuel Hq). split; reflexivity.
+Qed.
+
+(* ------------------------------------------------------------------ part 6
+   the cache of SplinedI3EnergySigSetOverBkgPDFRatio as a layer of the machine *)
+Section I3Refine.
+Variable W : world.
+Variable C : cfg.
+Hypothesis Hgrid : grid_ok W.
+Hypothesis Hfree : memo_free C = true.
+
+Definition ic_ok (sid : Z) (vw : option (view (data W) (src W)))
+  (ext : option (src W) * (option (GV W) * option (GV W))) (ev : option (tv (data W) (src W) (GV W)))
+  (c : option Z * Z * option (O W)) : Prop :=
+  kle (fst (fst c)) sid /\
+  forall x0 co v e, c = (Some sid, x0, co) -> vw = Some v -> ev = Some e ->
+    exists o, co = Some o /\ pure_interp W C (v, ext) e x0 = Ok o.
+
+Definition I3Inv (s : i3state W) : Prop :=
+  CInv W (i_base W s) /\ NoG W C (i_base W s) /\
+  ic_ok (s_sid (i_base W s)) (s_view (i_base W s)) (s_ext (i_base W s)) (s_evd (i_base W s)) (i_c W s).
+
+Lemma ic_ok_bump sid sid' vw ext ev vw' ext' ev' c :
+  ic_ok sid vw ext ev c -> sid < sid' -> ic_ok sid' vw' ext' ev' c.
+Proof.
+  intros (Hk & _) Hlt. destruct (kle_stale _ _ _ Hk Hlt) as (K & N). split; [exact K|].
+  intros x0 co v e E. rewrite E in N. cbn in N. congruence.
+Qed.
+
+Lemma gfp_step_sid st v ns x st0 tg :
+  gfp_step W C st v ns x = (st0, tg) -> st0 = st \/ s_sid st < s_sid st0.
+Proof.
+  unfold gfp_step. rewrite K_llh_calc_gfp, K_tdm_has_gfp, K_tdm_gfp_skip.
+  destruct (c_ngfp C >? 0); [|intros E; inversion E; auto].
+  destruct (c_ngfp C =? 0); [intros E; inversion E; auto|].
+  destruct (gfp_field1 W C st v x) as [st1 c1] eqn:E1.
+  destruct (field1_spec W C _ _ _ _ _ E1) as (_ & (Cs & _) & _).
+  destruct (2 <=? c_ngfp C).
+  - destruct (gfp_field2 W C st1 v ns) as [st2 c2] eqn:E2.
+    destruct (field2_spec W C _ _ _ _ _ E2) as (_ & (Ds & _) & _).
+    intros E; inversion E; subst. right. cbn. rewrite K_tdm_gfp_bump. lia.
+  - intros E; inversion E; subst. right. cbn. rewrite K_tdm_gfp_bump. lia.
+Qed.
+
+Lemma i3_evaluate_spec s ns x s' r t :
+  I3Inv s -> i3_evaluate W C s ns x = (s', r, t) ->
+  sstep W C (abs W (i_base W s)) (Evaluate W ns x) = (abs W (i_base W s'), OEval W r) /\ I3Inv s'.
+Proof.
+  intros HInv. pose proof HInv as (HI & HN & HC). unfold i3_evaluate, sstep, abs; cbn [ss_view ss_evd ss_srcf ss_cur ss_nsg].
+  set (st := i_base W s) in HI, HN, HC |- *.
+  pose proof (Memo_free W C st Hfree HN) as HM.
+  destruct (s_view st) as [v|] eqn:Ev.
+  2:{ intros E; inversion E; subst. fold st. rewrite Ev. split; [reflexivity|]. exact HInv. }
+  destruct (s_evd st) as [e|] eqn:Ee.
+  2:{ intros E; inversion E; subst. fold st. rewrite Ev, Ee. split; [reflexivity|]. exact HInv. }
+  destruct (gfp_step W C st v ns x) as [st0 tg] eqn:Eg.
+  destruct (gfp_step_spec W C _ _ _ _ _ _ HI HN Ev Eg) as (I0 & N0 & (Gv & Gsf & Gc & Ge & Gn) & HM0).
+  destruct (HM0 HM) as (M0 & Ex).
+  assert (Ev0 : s_view st0 = Some v) by congruence.
+  assert (Ee0 : s_evd st0 = Some e) by congruence.
+  rewrite (full_tv_eq W C v (s_srcf st) (s_cur st) ns x), <- Ex.
+  unfold pure_nsg, pure_eval.
+  destruct (i3_is_cached W (i_c W s) (s_sid st0) x) eqn:Eh.
+  - (* the cached ratio is used *)
+    unfold i3_is_cached in Eh. apply K_i3_is_cached in Eh. destruct Eh as (Ek & Ex0).
+    destruct (gfp_step_sid _ _ _ _ _ _ Eg) as [Es|Hlt].
+    + subst st0. destruct (i_c W s) as [[ck cx] co] eqn:Eic. cbn in Ek, Ex0. subst ck cx.
+      destruct (proj2 HC x co v e eq_refl eq_refl eq_refl) as (o & Eo & Ep). subst co. cbn [snd].
+      intros E; inversion E; subst; clear E. rewrite Ep. cbn.
+      split; [rewrite Ev, Ee; reflexivity|].
+      destruct HI as (Hl & Hp & Hs & Hb).
+      split; [apply CInv_set_bkg_nsg; [unfold CInv; auto | exact Hb]|].
+      split; [exact HN|]. cbn. rewrite Ev, Ee. exact HC.
+    + exfalso. destruct HC as (Hk & _). rewrite Ek in Hk. cbn in Hk. lia.
+  - destruct (interp W C st0 (v, s_ext st0) e x) as [[st1 t1] r1] eqn:Ei.
+    destruct (interp_spec W C Hgrid _ _ _ _ _ _ _ I0 Ev0 Ee0 Ei) as (R1 & I1 & F1).
+    destruct F1 as (Fs & Fv & Ff & Fc & Fe & Fn & Fb & Fsf & Fgk & Fgv).
+    assert (HC1 : forall c', ic_ok (s_sid st) (s_view st) (s_ext st) (s_evd st) c' ->
+              fst (fst c') <> Some (s_sid st0) \/ st0 = st).
+    { intros c' (Hk' & _). destruct (gfp_step_sid _ _ _ _ _ _ Eg) as [Es|Hlt]; [right; exact Es|].
+      left. intros E'. rewrite E' in Hk'. cbn in Hk'. lia. }
+    destruct r1 as [o|er]; intros E; inversion E; subst; clear E; rewrite <- R1; cbn.
+    + split; [rewrite Fv, Fsf, Fc, Fe, Gv, Gsf, Gc, Ge, Ev, Ee; reflexivity|].
+      destruct I1 as (Hl & Hp & Hs & Hb).
+      split; [apply CInv_set_bkg_nsg; [unfold CInv; auto | exact Hb]|].
+      split; [unfold NoG in *; cbn; rewrite Fgv; exact N0|].
+      cbn. split; [cbn; lia|].
+      intros x0 co v' e' Ec Ev' Ee'. inversion Ec; subst. exists o. split; [reflexivity|].
+      assert (v' = v) by congruence. assert (e' = e) by congruence. subst.
+      change (s_ext (set_bkg_nsg W st1 (s_bkg st1) ?n)) with (s_ext st1).
+      replace (s_ext st1) with (s_ext st0) by (unfold s_ext; congruence). symmetry. exact R1.
+    + split; [rewrite Fv, Fsf, Fc, Fe, Fn, Gv, Gsf, Gc, Ge, Gn, Ev, Ee; reflexivity|].
+      split; [exact I1|]. split; [unfold NoG in *; cbn; rewrite Fgv; exact N0|]. cbn.
+      destruct (gfp_step_sid _ _ _ _ _ _ Eg) as [Es|Hlt].
+      * subst st0. rewrite Fs, Fv, Fe. replace (s_ext st1) with (s_ext st) by (unfold s_ext; congruence).
+        rewrite Ev, Ee. exact HC.
+      * apply (ic_ok_bump _ _ _ _ _ _ _ _ _ HC). lia.
+Qed.
+
+Lemma i3step_spec s o s' ob t :
+  I3Inv s -> i3step W C s o = (s', ob, t) ->
+  sstep W C (abs W (i_base W s)) o = (abs W (i_base W s'), ob) /\ I3Inv s'.
+Proof.
+  intros HI. pose proof HI as (I & N & HC). destruct o as [d|ns x|sr|n]; cbn [i3step].
+  - intros E; inversion E; subst; clear E. cbn [i_base i_c].
+    destruct (step_spec W C Hgrid _ (InitTrial W d) _ _ _ I N eq_refl) as (I1 & N1 & _ & _ & Hs & _).
+    split; [apply Hs, (Memo_free W C _ Hfree N)|]. split; [exact I1|]. split; [exact N1|].
+    apply (ic_ok_bump _ _ _ _ _ _ _ _ _ HC).
+    destruct (state_id_bumps) as (_ & _ & _ & _ & _ & Hb). specialize (Hb W C (i_base W s) d). cbn [i_base] in *. lia.
+  - destruct (i3_evaluate W C s ns x) as [[s1 r] t1] eqn:Ee.
+    intros E; inversion E; subst. apply (i3_evaluate_spec _ _ _ _ _ _ HI Ee).
+  - intros E; inversion E; subst; clear E. cbn [i_base i_c].
+    destruct (step_spec W C Hgrid _ (ChangeSource W sr) _ _ _ I N eq_refl) as (I1 & N1 & _ & _ & Hs & _).
+    split; [apply Hs, (Memo_free W C _ Hfree N)|]. split; [exact I1|]. split; [exact N1|].
+    unfold change_source, calc_source_fields. rewrite K_tdm_src_skip, K_tdm_src_bump.
+    destruct (c_nsrc C =? 0); cbn.
+    + exact HC.
+    + apply (ic_ok_bump _ _ _ _ _ _ _ _ _ HC). lia.
+  - intros E; inversion E; subst; clear E. split; [apply ns_grad2_spec | exact HI].
+Qed.
+
+(* T7: with the i3 PDF ratio (its own cache in front of the interpolation
+   method) every observation of every history equals the cache-free one *)
+Theorem i3refines s0 ops :
+  i3observations W C (i3init W C s0) ops = srun W C (sinit W C s0) ops.
+Proof.
+  assert (Hrun : forall ops s, I3Inv s -> i3observations W C s ops = srun W C (abs W (i_base W s)) ops).
+  { induction ops0 as [|o r IH]; intros s HI; [reflexivity|].
+    unfold i3observations in *. cbn [i3run srun].
+    destruct (i3step W C s o) as [[s' ob] t] eqn:Es.
+    destruct (i3step_spec _ _ _ _ _ HI Es) as [E1 I1]. rewrite E1. cbn [map fst]. rewrite (IH s' I1). reflexivity. }
+  rewrite <- (abs_init W C s0). apply (Hrun ops (i3init W C s0)).
+  destruct (init_inv W C s0) as (N & _).
+  split; [apply CInv_init|]. split; [exact N|]. split; [exact I|]. intros; discriminate.
+Qed.
+
+End I3Refine.
